@@ -75,9 +75,16 @@ class Report(object):
         if seen is None:
             seen = sum(1 for o in self.obligations if o.rule == rule)
         self.floors.append((rule, expected, seen))
-        if seen < expected:
-            raise AnalysisError('rule %s matched %d instance(s), fewer than the %d confirmed by reading: the rule has lost its '
-                                'anchors (vacuous pass refused)' % (rule, seen, expected))
+
+    def check_floors(self):
+        """A rule that matched fewer instances than were confirmed by reading has lost its anchors: no verdict (exit 2) - unless the
+        run already reports violations, which then are the verdict."""
+        if self.violations():
+            return
+        for (rule, expected, seen) in self.floors:
+            if seen < expected:
+                raise AnalysisError('rule %s matched %d instance(s), fewer than the %d confirmed by reading: the rule has lost its '
+                                    'anchors (vacuous pass refused)' % (rule, seen, expected))
 
     def count(self, what, n):
         self.analysed[what] = n
